@@ -21,10 +21,14 @@ package proxy
 //                             outcome of the last attempt the backend saw; with one: it is neither
 //                             the outcome of any answered attempt nor timeout / 408 (a timed-out
 //                             attempt's request may reach the backend after a later attempt's)
+//   C10.failed-body-published the client is given bytes of an answer whose body was cut by the backend
+//                             (reset / stall after k of n declared bytes, or larger than serverMaxBodySize)
 //   C10.too-many-attempts, C10.stream-resent, C10.retry-after-success (the latter only without
 //   a pool timeout, when a sent answer is certain to have been received)
 //
-// No cancellation and no circuit breaker in this variant.
+// No cancellation, no circuit breaker and a single client task in this variant
+// (the backend's connection goroutines and the Transport's goroutines still run
+// concurrently with it).
 
 import (
 	stdcontext "context"
@@ -162,6 +166,53 @@ func c10ExecNet(r *sim.Run, sc *c10Scenario) {
 				c.Reset()
 			}
 			conn.Close()
+		case "bodyfail", "bodyhang", "toolarge", "toolarge-unknown":
+			// head + k bytes of a longer declared body, then reset (or stall until the peer
+			// gives up); "toolarge": a complete body longer than serverMaxBodySize
+			if !wait(time.Duration(script.LatUs) * time.Microsecond) {
+				att.kind = "aborted"
+				note("%s.a%d peer gone before answer", st.name, idx)
+				return
+			}
+			status := script.Status
+			if status < 200 || status > 599 {
+				status = 200
+			}
+			full := att.tag + "-" + strings.Repeat("x", 80)
+			k := script.BodyK
+			if k < 0 {
+				k = 0
+			}
+			if k >= len(full) {
+				k = len(full) - 1
+			}
+			if strings.HasPrefix(script.Kind, "toolarge") && sc.MaxBody > 0 {
+				k = len(full)
+			}
+			hj, ok := w.(http.Hijacker)
+			if !ok {
+				return
+			}
+			conn, buf, err := hj.Hijack()
+			if err != nil {
+				return
+			}
+			att.kind, att.status, att.failed, att.sent = "bodyerr", status, true, full[:k]
+			note("%s.a%d backend answers %d and %d of %d body bytes (%s)", st.name, idx, status, k, len(full), script.Kind)
+			fmt.Fprintf(buf, "HTTP/1.1 %d %s\r\nContent-Length: %d\r\nX-C10-Attempt: %s\r\n\r\n%s", status, http.StatusText(status), len(full), att.tag, full[:k])
+			buf.Flush()
+			if k < len(full) {
+				r.Fault("backend-body-cut")
+				if script.Kind == "bodyhang" && ref.timeout > 0 {
+					wait(3 * time.Hour)
+				} else {
+					wait(time.Millisecond) // let the bytes travel, then abort
+				}
+				if c, ok := conn.(*simnet.Conn); ok {
+					c.Reset()
+				}
+			}
+			conn.Close()
 		default:
 			if script.LatUs < 0 {
 				script.LatUs = 0
@@ -186,6 +237,17 @@ func c10ExecNet(r *sim.Run, sc *c10Scenario) {
 	})}
 	go srv.Serve(ln)
 
+	// The transport is the real one; the pass-through only adds a scheduler gate after
+	// client.Do returns: requests whose time-outs expire at the same instant would otherwise
+	// draw their (taped) back-off randomisation in an irreproducible order.
+	savedSend := fnSendRequest
+	defer func() { fnSendRequest = savedSend }()
+	fnSendRequest = func(hr *http.Request, c *http.Client) (*http.Response, error) {
+		resp, err := c.Do(hr)
+		r.Yield("c10.net.transport.leave")
+		return resp, err
+	}
+
 	px := &Proxy{spec: &Spec{Pools: []*ServerPoolSpec{spec}}}
 	px.reload()
 	px.InjectResiliencePolicy(policies)
@@ -196,7 +258,7 @@ func c10ExecNet(r *sim.Run, sc *c10Scenario) {
 		px.Close()
 	}()
 
-	var sawTimeout408, sawReset503, sawRetrySuccess bool
+	var sawTimeout408, sawReset503, sawRetrySuccess, sawBodyCut bool
 
 	finish := func(st *c10Req, result string, status int, body string, hasResp bool, dur time.Duration, pnc interface{}, stack string) {
 		n := len(st.atts)
@@ -225,7 +287,21 @@ func c10ExecNet(r *sim.Run, sc *c10Scenario) {
 			r.Violate("C10.net-timeout-hang", "request %s: ServerPool.handle returned after %v of simulated time; bound for maxAttempts=%d, timeout=%v is %v\n%s\nhistory: %s", st.name, dur, maxAOf(st), T, bound, describe(), history())
 			return
 		}
-		timeoutOK := T > 0 && result == "timeout" && hasResp && status == http.StatusRequestTimeout
+		leak := strings.Contains(body, "-attempt-")
+		timeoutOK := T > 0 && result == "timeout" && hasResp && status == http.StatusRequestTimeout && !leak
+		if leak {
+			explained := false
+			for _, a := range st.atts {
+				if a.kind == "resp" && a.tag == body && a.status == status {
+					explained = true
+				}
+			}
+			if !explained {
+				r.Violate("C10.failed-body-published", "request %s: the client is given status %d with body %q (result %q), which is not the complete answer of any attempt: bytes of a failed attempt's body were published\n%s\nhistory: %s",
+					st.name, status, body, result, describe(), history())
+				return
+			}
+		}
 		if n == 0 {
 			if !timeoutOK {
 				r.Violate("C10.other", "request %s never reached the backend and the client got result %q status %d\n%s\nhistory: %s", st.name, result, status, describe(), history())
@@ -244,8 +320,16 @@ func c10ExecNet(r *sim.Run, sc *c10Scenario) {
 			switch a.kind {
 			case "err":
 				answered++
-				if result == "serverError" && hasResp && status == http.StatusServiceUnavailable {
+				if result == "serverError" && hasResp && status == http.StatusServiceUnavailable && !leak {
 					sawReset503 = true
+					return
+				}
+			case "bodyerr":
+				// head (and part of the body) sent, then cut: a failure with a 5xx status, whichever
+				// result (the cut may also hit before the head was parsed)
+				answered++
+				if result != "" && hasResp && status >= 500 && !leak && !(status == a.status && result != "failureCode" && status < 500) {
+					sawBodyCut = true
 					return
 				}
 			case "resp":
@@ -284,7 +368,10 @@ func c10ExecNet(r *sim.Run, sc *c10Scenario) {
 		}
 	}
 
-	for ci := range sc.Clients {
+	// One client task only: with two, requests whose time-outs expire at the same instant wake up
+	// inside net/http in an irreproducible order, and which of them spawns the Transport's next
+	// dial goroutine (hence its canonical name) would not replay.
+	for ci := range sc.Clients[:1] {
 		ci := ci
 		ops := sc.Clients[ci].Ops
 		r.Go(fmt.Sprintf("client%d", ci), func() {
@@ -377,7 +464,10 @@ func c10ExecNet(r *sim.Run, sc *c10Scenario) {
 	if sawRetrySuccess {
 		r.Probe("c10.net.retry_success")
 	}
-	if sawTimeout408 || sawReset503 || sawRetrySuccess {
+	if sawBodyCut {
+		r.Probe("c10.net.body_cut_5xx")
+	}
+	if sawTimeout408 || sawReset503 || sawRetrySuccess || sawBodyCut {
 		r.Nontrivial()
 	}
 	var sig strings.Builder
